@@ -759,6 +759,20 @@ package ugo
 //@ loop 0 invariant[frames] vmFrameInv(vm)
 //@ loop 0 invariant[sp] vm.sp >= 0
 //@ uses (*errHandlers).findFinally
+//@ loop 0 step[constant@C02] prev(vm.curInsts[vm.ip+1]) == byte(OpConstant) ==> vm.sp == prev(vm.sp)+1 && vm.ip == prev(vm.ip)+3 && vm.stack[prev(vm.sp)] == prev(vm.constants[specOperand16(vm.curInsts, vm.ip+2)])
+//@ loop 0 step[null@C02] prev(vm.curInsts[vm.ip+1]) == byte(OpNull) ==> vm.sp == prev(vm.sp)+1 && vm.ip == prev(vm.ip)+1 && vm.stack[prev(vm.sp)] == Undefined
+//@ loop 0 step[true@C02] prev(vm.curInsts[vm.ip+1]) == byte(OpTrue) ==> vm.sp == prev(vm.sp)+1 && vm.ip == prev(vm.ip)+1 && vm.stack[prev(vm.sp)] == Object(True)
+//@ loop 0 step[false@C02] prev(vm.curInsts[vm.ip+1]) == byte(OpFalse) ==> vm.sp == prev(vm.sp)+1 && vm.ip == prev(vm.ip)+1 && vm.stack[prev(vm.sp)] == Object(False)
+//@ loop 0 step[pop@C02] prev(vm.curInsts[vm.ip+1]) == byte(OpPop) ==> vm.sp == prev(vm.sp)-1 && vm.ip == prev(vm.ip)+1 && vm.stack[vm.sp] == nil
+//@ loop 0 step[getlocal@C02] prev(vm.curInsts[vm.ip+1]) == byte(OpGetLocal) ==> vm.sp == prev(vm.sp)+1 && vm.ip == prev(vm.ip)+2 && vm.stack[prev(vm.sp)] == prev(specDeref(vm.stack[vm.curFrame.basePointer+int(vm.curInsts[vm.ip+2])]))
+//@ loop 0 step[definelocal@C02] prev(vm.curInsts[vm.ip+1]) == byte(OpDefineLocal) && prev(vm.curFrame.basePointer+int(vm.curInsts[vm.ip+2]) < vm.sp-1) ==> vm.sp == prev(vm.sp)-1 && vm.ip == prev(vm.ip)+2 && vm.stack[prev(vm.curFrame.basePointer+int(vm.curInsts[vm.ip+2]))] == prev(vm.stack[vm.sp-1])
+//@ loop 0 step[jump@C02] prev(vm.curInsts[vm.ip+1]) == byte(OpJump) ==> vm.sp == prev(vm.sp) && vm.ip == prev(specOperand32(vm.curInsts, vm.ip+2))-1
+//@ loop 0 step[return@C02] prev(vm.curInsts[vm.ip+1]) == byte(OpReturn) ==> vm.frameIndex == prev(vm.frameIndex)-1 && vm.curFrame == &vm.frames[vm.frameIndex-1] && vm.ip == prev(vm.frames[vm.frameIndex-2].ip) && vm.sp == prev(specReturnBase(vm.curFrame.basePointer, vm.curFrame.fn.NumLocals))
+//@ loop 0 step[returnvalue@C02] prev(vm.curInsts[vm.ip+1]) == byte(OpReturn) && prev(vm.curInsts[vm.ip+2]) == 1 ==> vm.stack[vm.sp-1] == prev(vm.stack[vm.sp-1])
+//@ loop 0 step[returnundef@C02] prev(vm.curInsts[vm.ip+1]) == byte(OpReturn) && prev(vm.curInsts[vm.ip+2]) != 1 ==> vm.stack[vm.sp-1] == Undefined
+//@ loop 0 step[finalizer@C03] prev(vm.curInsts[vm.ip+1]) == byte(OpFinalizer) ==> vm.sp == prev(vm.sp) && ((vm.ip == prev(vm.ip)+2) || (len(specHandlers(vm)) >= 1 && specHandlers(vm)[len(specHandlers(vm))-1].returnTo == prev(vm.ip)+1 && specHandlers(vm)[len(specHandlers(vm))-1].sp == vm.sp && specPendingErr(vm) == nil && specHandlers(vm)[len(specHandlers(vm))-1].finally > 0 && vm.ip == specHandlers(vm)[len(specHandlers(vm))-1].finally-1))
+//@ loop 1 invariant i >= bp-1 && vm.sp == prev(vm.sp) && vm.frameIndex == prev(vm.frameIndex) && vm.curFrame == prev(vm.curFrame) && vm.ip == prev(vm.ip)+1
+//@ loop 1 invariant[retslot] (numRet == 1 ==> vm.stack[bp-1] == prev(vm.stack[vm.sp-1])) && (numRet != 1 ==> vm.stack[bp-1] == Undefined)
 //@ loop 0 step[loadmodule@C12] prev(vm.curInsts[vm.ip+1]) == byte(OpLoadModule) ==> vm.sp == prev(vm.sp)+2 && vm.ip == prev(vm.ip)+5 && specLoadModule(prev(vm.modulesCache[specOperand16(vm.curInsts, vm.ip+4)]), prev(vm.constants[specOperand16(vm.curInsts, vm.ip+2)]), vm.stack[prev(vm.sp)], vm.stack[prev(vm.sp)+1])
 //@ loop 0 step[storemodule@C12] prev(vm.curInsts[vm.ip+1]) == byte(OpStoreModule) ==> vm.sp == prev(vm.sp) && vm.ip == prev(vm.ip)+3 && vm.modulesCache[prev(specOperand16(vm.curInsts, vm.ip+2))] == vm.stack[vm.sp-1]
 //@ loop 0 panicpoint
@@ -766,4 +780,4 @@ package ugo
 //@ panics vmPanicPoint(vm)
 //@ modifies *
 //@ property C06
-//@ stepproperty C12
+//@ stepproperty C12 C02 C03
